@@ -173,15 +173,18 @@ pub fn stress(dir: &str, output: &str, seed: u64, thorough: bool) -> Value {
 	let tiles = container_tiles(&mut rng, ntiles);
 	let coords: Vec<TileCoord3> = tiles.iter().map(|(c, _)| *c).collect();
 	let mut lookups = 0u64;
-	for (src, ext) in [("versatiles", "versatiles"), ("pmtiles", "pmtiles"), ("tar", "tar")] {
+	// the same containers once more through the HTTP data reader (range requests against a local server)
+	let httpd = crate::httpd::RangeServer::start(Path::new(dir));
+	for (src, ext) in [("versatiles", "versatiles"), ("pmtiles", "pmtiles"), ("tar", "tar"), ("versatiles_http", "versatiles"), ("pmtiles_http", "pmtiles")] {
 		let path = Path::new(dir).join(format!("c13.{ext}"));
 		let _ = std::fs::remove_file(&path);
 		let mut mem = MemReader::new("c13", TileFormat::PBF, TileCompression::Uncompressed, tiles.clone());
 		rt.block_on(write_to_filename(&mut mem, path.to_str().unwrap())).unwrap();
-		let reader: Arc<Box<dyn TilesReaderTrait>> = Arc::new(rt.block_on(get_reader(path.to_str().unwrap())).unwrap());
+		let location = if src.ends_with("_http") { format!("http://127.0.0.1:{}/c13.{ext}", httpd.port) } else { path.to_str().unwrap().to_string() };
+		let reader: Arc<Box<dyn TilesReaderTrait>> = Arc::new(rt.block_on(get_reader(&location)).unwrap());
 		// sequential reference on a FRESH reader instance (so caches start cold in the concurrent phase too)
 		{
-			let seq = rt.block_on(get_reader(path.to_str().unwrap())).unwrap();
+			let seq = rt.block_on(get_reader(&location)).unwrap();
 			for c in &coords {
 				let h = match rt.block_on(seq.get_tile_data(c)) {
 					Ok(Some(b)) => h31(b.as_slice()) as i64,
@@ -226,7 +229,7 @@ pub fn stress(dir: &str, output: &str, seed: u64, thorough: bool) -> Value {
 	}
 	let _ = std::fs::remove_file(&p);
 	let lines = out.finish();
-	json!({"events": lines, "reads": total_reads, "lookups": lookups, "tiles": ntiles})
+	json!({"events": lines, "reads": total_reads, "lookups": lookups, "tiles": ntiles, "http_range_requests": httpd.requests.load(std::sync::atomic::Ordering::Relaxed)})
 }
 
 // ------------------------------------------------------------------------------------------------------------------
